@@ -28,7 +28,7 @@ import (
 // server must be detected no earlier than one timeout after the last send.
 
 type c18Step struct {
-	Kind  string // single | batch | early | cancelled (batch) | cancelled-single (unbatched calls) | ooo | race-clear | idle | silent
+	Kind  string // single | batch | early | cancelled (batch) | cancelled-single (unbatched calls) | ooo | race-clear | one-of-n | idle | silent
 	N     int
 	Delay time.Duration
 }
@@ -54,7 +54,7 @@ func genC18Case(r *rand.Rand, realtime bool) c18Case {
 	// loaded machine must not be able to make a healthy server look silent
 	cs := c18Case{Seed: r.Int63(), Timeout: []time.Duration{time.Second, 2 * time.Second}[r.Intn(2)],
 		Queue: []int{1, 2, 100}[r.Intn(3)], Full: r.Intn(3) == 0}
-	kinds := []string{"single", "single", "batch", "early", "early", "cancelled", "cancelled-single", "ooo", "race-clear"}
+	kinds := []string{"single", "single", "batch", "early", "early", "cancelled", "cancelled-single", "ooo", "race-clear", "one-of-n"}
 	for i, n := 0, 3+r.Intn(8); i < n; i++ {
 		cs.Steps = append(cs.Steps, c18Step{Kind: kinds[r.Intn(len(kinds))], N: 1 + r.Intn(5)})
 	}
@@ -80,7 +80,9 @@ func runC18Case(c *fw.Ctx, id string, cs c18Case) {
 	var forceEarly int32 // next write waits for the response to be read before returning
 	var lastWriteReturn atomic.Value
 	var silent int32
-	var hold atomic.Value      // chan struct{} for ooo/held replies
+	var hold atomic.Value     // chan struct{} for ooo/held replies
+	var holdSkip atomic.Value // string: op id whose reply is NOT held while hold is set
+	holdSkip.Store("")
 	var clearHook atomic.Value // func(): runs inside the connection's "clear the read deadline" call
 	clearHook.Store(func() {})
 	cl.OnRequest = func(req *sim.Request) *sim.Reply {
@@ -91,6 +93,9 @@ func runC18Case(c *fw.Ctx, id string, cs c18Case) {
 			opid := ""
 			if req.Single != nil {
 				opid = req.Single.OpID
+			}
+			if skip, _ := holdSkip.Load().(string); skip != "" && opid == skip {
+				return nil
 			}
 			if req.Multi != nil || opid != "" {
 				return &sim.Reply{HoldDefault: h}
@@ -388,6 +393,100 @@ func runC18Case(c *fw.Ctx, id string, cs c18Case) {
 			if !quiescent(where) {
 				return
 			}
+		case "one-of-n":
+			// N >= 2 unbatched requests are outstanding, the server answers the
+			// first one only: the deadline must stay armed for the others
+			n := st.N
+			if n < 2 {
+				n = 2
+			}
+			stepOps = nil
+			var calls []hrpc.Call
+			for i := 0; i < n; i++ {
+				calls = append(calls, mkCall(context.Background(), true))
+			}
+			first := stepOps[0]
+			h := make(chan struct{})
+			holdStart := time.Now()
+			holdSkip.Store(first)
+			hold.Store(h)
+			done := make(chan []error, 1)
+			go func() {
+				// the answered call is sent last, so that its response is read when
+				// all the others are already outstanding
+				done <- send(append(append([]hrpc.Call{}, calls[1:]...), calls[0]), false)
+			}()
+			mu.Lock()
+			cc := append([]*faultconn.Conn{}, conns...)
+			mu.Unlock()
+			for len(cc) == 0 && time.Since(holdStart) < cs.Timeout*4/10 {
+				time.Sleep(2 * time.Millisecond)
+				mu.Lock()
+				cc = append([]*faultconn.Conn{}, conns...)
+				mu.Unlock()
+			}
+			answered := false
+			if len(cc) > 0 {
+				fc := cc[len(cc)-1]
+				// wait until every request has reached the server and the reply to the
+				// first call has been written, then give the reader a moment to process it
+				for !answered && time.Since(holdStart) < cs.Timeout*4/10 {
+					if arrived(stepOps) {
+						var conn int64
+						var callID uint32
+						found := false
+						for _, e := range cl.Log.Snapshot() {
+							if e.Kind == "exec" && e.OpID == first {
+								conn, callID, found = e.Conn, e.CallID, true
+							}
+							if found && e.Kind == "reply" && e.Conn == conn && e.CallID == callID && e.Info == "ok" {
+								answered = true
+							}
+						}
+					}
+					if !answered {
+						time.Sleep(2 * time.Millisecond)
+					}
+				}
+				if answered {
+					time.Sleep(10 * time.Millisecond)
+					c.Count("one_of_n_checks", 1)
+					c.Count("outstanding_deadline_checks", 1)
+					if dl := fc.ReadDeadline(); dl.IsZero() && !fc.Closed() {
+						// (not a sampling artefact: once cleared by the processing of the
+						// only response, nothing re-arms it - no further request is sent)
+						time.Sleep(20 * time.Millisecond)
+						if dl = fc.ReadDeadline(); dl.IsZero() {
+							c.Violate(id, "silent:no-deadline-while-outstanding", fmt.Sprintf("%s: %d requests are outstanding and unanswered after the server answered one, but no read deadline is armed: %s", where, n-1, cs), cs)
+						}
+					}
+				} else {
+					c.Inconclusive("held-requests-not-settled")
+				}
+			}
+			holdSkip.Store("")
+			hold.Store((chan struct{})(nil))
+			close(h)
+			if held := time.Since(holdStart); held > cs.Timeout*8/10 {
+				c.Inconclusive("replies-held-too-long")
+				return
+			}
+			select {
+			case errs := <-done:
+				for _, e := range errs {
+					if e != nil {
+						c.Violate(id, "idle:call-failed", fmt.Sprintf("%s: call failed on a healthy connection: %v: %s", where, e, cs), cs)
+						return
+					}
+				}
+			case <-time.After(10 * time.Second):
+				c.Violate(id, "idle:calls-stuck", where+": calls did not complete in 10s: "+cs.String(), cs)
+				return
+			}
+			c.Count("zero_crossings", 1)
+			if !quiescent(where) {
+				return
+			}
 		case "race-clear":
 			// The connection becomes idle (response to A read, deadline about to
 			// be cleared) at the very moment another request B is sent, and B is
@@ -542,7 +641,7 @@ func init() {
 		},
 		Floors: func(tier string) map[string]int64 {
 			return map[string]int64{"sequences": 200, "zero_crossings": 1000, "forced_early_responses": 150, "deadline_state_checks": 1000,
-				"outstanding_deadline_checks": 150, "idle_survivals": 8, "silent_detections": 3, "race_clear_checks": 50}
+				"outstanding_deadline_checks": 150, "idle_survivals": 8, "silent_detections": 3, "race_clear_checks": 50, "one_of_n_checks": 50}
 		},
 		Run: func(c *fw.Ctx) {
 			r := c.Rand("c18")
